@@ -97,6 +97,8 @@ type replica struct {
 	proxy   *handler.SSOProxy
 	rawSrc  router.Source
 	started time.Time
+	oc      openidconfig.Config      // what the handlers of this replica were built with (function-level drivers use the same values)
+	jw      openidclient.JwksProvider
 }
 
 type anyConfig struct {
@@ -248,6 +250,7 @@ func (s *sut) replicaMode(name, mode string) *replica {
 		}
 		jw = p
 	}
+	rp.oc, rp.jw = oc, jw
 	switch mode {
 	case "sso-proxy":
 		p, err := handler.NewSSOProxy(cfg, s.crypter)
